@@ -237,7 +237,7 @@ def st_schedule(draw):
 
 class Schedule(Sub):
     name = "schedule"
-    examples = {"quick": 800, "thorough": 30000}
+    examples = {"quick": 800, "thorough": 6400}
     shards = {"quick": 8, "thorough": 16}
     rule = ("two connections, messages fed without settling, parked/released query jobs, bursts of REQ+CLOSE or "
             "REQ+REQ pairs; oracle: per (conn, sub id) at most one EOSE per REQ sent, EVENT frames under an id match "
